@@ -112,7 +112,7 @@ struct HostState {
     /// keyIncarnationId of the status document (an optional field)
     status_incarnation: Option<u32>,
     /// key ids for which an attest request arrived in this run, in order
-    attested_guids: Vec<String>,
+    attested_guids: Vec<(String, f64)>,
 }
 
 fn guid_of(tag: u64, i: usize) -> String {
@@ -182,7 +182,7 @@ fn start_host(port: u16, listener: usize, st: Arc<Mutex<HostState>>) -> MockHost
                 _ => {}
             }
             s.attests += 1;
-            s.attested_guids.push(guid.clone());
+            s.attested_guids.push((guid.clone(), std::time::SystemTime::now().duration_since(std::time::UNIX_EPOCH).map(|d| d.as_secs_f64()).unwrap_or(0.0)));
             let idx = s.issued.iter().position(|k| k.0 == guid);
             match idx {
                 None => {
@@ -334,6 +334,9 @@ fn run_child_inj(slot: &Slot, inject: Option<String>, trace_to: Option<&str>) ->
         if let Some(spec) = &kill_at {
             // strace counts invocations per syscall: the k-th invocation of this one syscall is killed on entry
             cmd.arg("-e").arg(format!("inject={spec}"));
+        }
+        if trace_to.map_or(false, |t| t.ends_with("-fault.trace")) {
+            cmd.arg("-ttt"); // wall-clock time of every call (the storage-fault pass orders calls against the mock's attest log)
         }
         cmd.arg("-o").arg(trace_to.unwrap_or("/dev/null"));
         cmd.arg(exe);
@@ -698,21 +701,27 @@ fn main() {
                 // read-only open of a key file, an attest for that key must be preceded by a successful read-only open of it
                 // (weaker, order-free form: there must be one at all after the failed one in this run)
                 if let Ok(tr) = std::fs::read_to_string(&ftrace) {
-                    let mut failed: Option<(usize, String)> = None;
+                    // lines: "<pid> <epoch seconds> <call>"
+                    let ts_of = |l: &str| l.split_whitespace().nth(1).and_then(|t| t.parse::<f64>().ok());
+                    let mut failed: Option<(usize, String, f64)> = None;
                     let lines: Vec<&str> = tr.lines().collect();
                     for (li, l) in lines.iter().enumerate() {
                         if l.contains("(INJECTED)") && l.contains(".key\"") && l.contains("O_RDONLY") {
-                            if let Some(path) = l.split('"').nth(1) {
-                                failed = Some((li, path.to_string()));
+                            if let (Some(path), Some(t)) = (l.split('"').nth(1), ts_of(l)) {
+                                failed = Some((li, path.to_string(), t));
                             }
                         }
                     }
-                    if let Some((li, path)) = failed {
+                    if let Some((li, path, t_failed)) = failed {
                         let guid = path.rsplit('/').next().unwrap_or("").trim_end_matches(".key").to_string();
-                        let attested = slot.st.lock().unwrap().attested_guids.iter().any(|g| g.eq_ignore_ascii_case(&guid));
-                        let reread = lines[li + 1..].iter().any(|l| l.contains(&format!("\"{path}\"")) && l.contains("O_RDONLY") && !l.contains("= -1") && !l.contains("<unfinished"));
-                        if attested && !reread {
-                            out.lock().unwrap().push((format!("attested-without-successful-read-back:{:?}:{:?}:storage-fault", sc, f), format!("{kname}#{k} was the read-only open of {path} and failed; the agent never opened that file again in this run, yet the host received an attest request for {guid}"), case.clone()));
+                        // attests for that key that reached the host after the failed open
+                        let later: Vec<f64> = slot.st.lock().unwrap().attested_guids.iter().filter(|(g, t)| g.eq_ignore_ascii_case(&guid) && *t > t_failed).map(|(_, t)| *t).collect();
+                        for t_attest in later {
+                            let reread = lines[li + 1..].iter().any(|l| l.contains(&format!("\"{path}\"")) && l.contains("O_RDONLY") && !l.contains("= -1") && !l.contains("<unfinished") && ts_of(l).map_or(false, |t| t < t_attest));
+                            if !reread {
+                                out.lock().unwrap().push((format!("attested-without-successful-read-back:{:?}:{:?}:storage-fault", sc, f), format!("{kname}#{k} was the read-only open of {path} and failed; without having opened that file successfully again the agent sent an attest request for {guid} ({:.3} s later)", t_attest - t_failed), case.clone()));
+                                break;
+                            }
                         }
                     }
                 }
@@ -773,7 +782,7 @@ fn main() {
         res.cov("exhaustive", hit == total);
     }
     res.cov("window_syscalls_per_combination", json!(windows.iter().map(|w| json!({"scenario": format!("{:?}", w.0), "fault": format!("{:?}", w.1), "first": w.2, "last": w.3})).collect::<Vec<_>>()));
-    res.cov("rule", format!("for each of {} (scenario, host fault) combinations: the fault-free run is traced twice with strace (syscalls {SYSCALLS}); then one run per kill point = every invocation (by syscall name and per-syscall index, as strace counts) from the first connect to the host up to process exit (+1..3), killed with SIGKILL on entry; after each kill: no torn file under a final key name, the host's latched key is complete in the store, the mock host never saw an attest for a key that was not complete on disk; then a fresh process on the same store must reach an accepted signed request, without a new acquisition when the latched key was in the store; then (storage faults) one run per file-system call of the window in which that call fails once with ENOSPC and the agent keeps running, with the same oracles, and: when the failed call was the read-only open of a key file, no attest for that key unless the file was opened successfully again; distinct = kill points at which the process was actually killed", combos.len()));
+    res.cov("rule", format!("for each of {} (scenario, host fault) combinations: the fault-free run is traced twice with strace (syscalls {SYSCALLS}); then one run per kill point = every invocation (by syscall name and per-syscall index, as strace counts) from the first connect to the host up to process exit (+1..3), killed with SIGKILL on entry; after each kill: no torn file under a final key name, the host's latched key is complete in the store, the mock host never saw an attest for a key that was not complete on disk; then a fresh process on the same store must reach an accepted signed request, without a new acquisition when the latched key was in the store; then (storage faults) one run per file-system call of the window in which that call fails once with ENOSPC and the agent keeps running, with the same oracles, and: when the failed call was the read-only open of a key file, no attest for that key afterwards unless the file was opened successfully again in between (strace -ttt times against the mock's attest log); distinct = kill points at which the process was actually killed", combos.len()));
     res.sample(json!({"scenario": "FreshLatch", "host_fault": "None", "window": windows.first().map(|w| w.4.iter().skip(w.2.saturating_sub(1) as usize).take(12).cloned().collect::<Vec<_>>())}));
     res.assume("process death = SIGKILL on syscall entry; power loss (page cache, metadata ordering) is not in the statement");
     res.assume("single-threaded subject (current-thread runtime, paused clock): the syscall sequence of the window is deterministic (compared between two fault-free runs)");
